@@ -405,14 +405,25 @@ def nullVars (pats : List Pattern) (env : Env) : Env :=
 def forEnvs (envs : List Env) (f : Env → Res) : Res :=
   envs.foldl (fun (acc : Res) env' => acc.append fun _ => f env') .empty
 
-/-- accumulate environments: apply `f` to every environment, concatenating the results -/
-def expandEnvs (envs : List Env) (f : Env → Except Stop (List Env)) : Except Stop (List Env) :=
-  envs.foldl (fun (acc : Except Stop (List Env)) env' =>
-    match acc with
-    | .error e => .error e
-    | .ok done => match f env' with
-      | .error e => .error e
-      | .ok es => .ok (done ++ es)) (.ok [])
+/-- the outcome of binding a pattern: the environments produced IN ORDER, then how the
+    enumeration ended.  Patterns are generators (object keys may be generator queries) and the
+    body runs for each environment as it is produced, so an error of the pattern raised after some
+    environments comes AFTER whatever the body did with those (it is not raised up front). -/
+structure PatRes where
+  envs : List Env
+  stop : Stop := .done
+
+def PatRes.ok (es : List Env) : PatRes := ⟨es, .done⟩
+def PatRes.fail (st : Stop) : PatRes := ⟨[], st⟩
+
+/-- sequencing over environments: `f` on each in order; the first non-`done` stop ends it -/
+def expandEnvs (f : Env → PatRes) (final : Stop) : List Env → PatRes
+  | [] => ⟨[], final⟩
+  | e :: rest =>
+    let r := f e
+    match r.stop with
+    | .done => let r2 := expandEnvs f final rest; ⟨r.envs ++ r2.envs, r2.stop⟩
+    | st => ⟨r.envs, st⟩
 
 /-- evaluate argument queries as values, the LAST one in the outermost loop, threading the
     tracking context; `k` receives the values in argument order -/
@@ -445,17 +456,18 @@ def foreachEnvs (upd : Env → JV → Ident → Res) (ext : Env → St → Res) 
     | .done => foreachEnvs upd ext erest sv' sid' r1.outs
     | _ => (r1, sv', sid')
 
-def foreachLoop (bindPat : St → Except Stop (List Env)) (upd : St → Env → JV → Ident → Res) (ext : Env → St → Res)
+def foreachLoop (bindPat : St → PatRes) (upd : St → Env → JV → Ident → Res) (ext : Env → St → Res)
     (final : Stop) : List St → JV → Ident → List St → Res
   | [], _, _, acc => ⟨acc, final⟩
   | x :: rest, sv, sid, acc =>
-    match bindPat x with
-    | .error st => ⟨acc, pendStop x.pend st⟩
-    | .ok envs =>
-      let (r1, sv', sid') := foreachEnvs (upd x) ext envs sv sid acc
-      match r1.stop with
-      | .done => foreachLoop bindPat upd ext final rest sv' sid' r1.outs
-      | st => ⟨r1.outs, pendStop x.pend st⟩
+    let pr := bindPat x
+    let (r1, sv', sid') := foreachEnvs (upd x) ext pr.envs sv sid acc
+    match r1.stop with
+    | .done =>
+      (match pr.stop with
+       | .done => foreachLoop bindPat upd ext final rest sv' sid' r1.outs
+       | st => ⟨r1.outs, pendStop x.pend st⟩)
+    | st => ⟨r1.outs, pendStop x.pend st⟩
 
 /-- string interpolation `p₁ + p₂ + … + pₙ` (left-nested `+`): the LAST part is the outermost
     loop.  `parts` is given reversed. -/
@@ -469,68 +481,72 @@ def interpK (part : Query → Option PCtx → Res) (s : St) : List Query → Opt
         | .str a, .str b => .one { v := .str (a ++ b), id := .fresh, ctx := x.ctx }
         | a, b => nativeRes x "_add" (callNative "_add" s.v [a, b])
 
-/-- array pattern `[p₀, p₁, …]` -/
-def bindArrayK (bindOne : Env → Pattern → JV → Ident → Except Stop (List Env)) (xv : JV) (xid : Ident) :
-    List Pattern → Nat → List Env → Except Stop (List Env)
-  | [], _, envs => .ok envs
-  | p :: rest, i, envs =>
-    match funcIndex2 xv (jvInt (i : Nat)) with
-    | .error e => .error (.err e)
-    | .ok w =>
-      match expandEnvs envs (fun env' => bindOne env' p w (childIdent xid (jvInt (i : Nat)))) with
-      | .error e => .error e
-      | .ok envs' => bindArrayK bindOne xv xid rest (i + 1) envs'
+/-- array pattern `[p₀, p₁, …]`: `cur` = the environments after the patterns before `p` -/
+def bindArrayK (bindOne : Env → Pattern → JV → Ident → PatRes) (xv : JV) (xid : Ident) :
+    List Pattern → Nat → PatRes → PatRes
+  | [], _, cur => cur
+  | p :: rest, i, cur =>
+    let next := expandEnvs (fun env' =>
+      match funcIndex2 xv (jvInt (i : Nat)) with
+      | .error e => PatRes.fail (.err e)
+      | .ok w => bindOne env' p w (childIdent xid (jvInt (i : Nat)))) cur.stop cur.envs
+    bindArrayK bindOne xv xid rest (i + 1) next
+
+/-- the keys of one object-pattern entry, in order, then how their enumeration ended -/
+abbrev KeysRes := List JV × Stop
+
+/-- bind one entry `key: val` for each key in order -/
+def bindKeysK (bindOne : Env → Pattern → JV → Ident → PatRes) (xv : JV) (xid : Ident)
+    (key : ObjKey) (val : Option Pattern) (env' : Env) (final : Stop) : List JV → PatRes
+  | [] => ⟨[], final⟩
+  | k :: ks =>
+    let r : PatRes :=
+      match funcIndex2 xv k with
+      | .error e => PatRes.fail (.err e)
+      | .ok w =>
+        let wid := childIdent xid k
+        let env1 := match key with
+          | .var n => env'.push (.var n w wid)
+          | _ => env'
+        match val with
+        | none => PatRes.ok [env1]
+        | some vp => bindOne env1 vp w wid
+    match r.stop with
+    | .done => let r2 := bindKeysK bindOne xv xid key val env' final ks; ⟨r.envs ++ r2.envs, r2.stop⟩
+    | st => ⟨r.envs, st⟩
 
 /-- object pattern `{k: p, $v, …}` -/
-def bindObjectK (keysOf : Env → ObjKey → Except Stop (List JV))
-    (bindOne : Env → Pattern → JV → Ident → Except Stop (List Env)) (xv : JV) (xid : Ident) :
-    List PatKV → List Env → Except Stop (List Env)
-  | [], envs => .ok envs
-  | .mk key val :: rest, envs =>
-    let r := expandEnvs envs fun env' =>
-      match keysOf env' key with
-      | .error e => .error e
-      | .ok ks =>
-        ks.foldl (fun (acc : Except Stop (List Env)) k =>
-          match acc with
-          | .error e => .error e
-          | .ok done =>
-            match funcIndex2 xv k with
-            | .error e => .error (.err e)
-            | .ok w =>
-              let wid := childIdent xid k
-              let env1 := match key with
-                | .var n => env'.push (.var n w wid)
-                | _ => env'
-              match val with
-              | none => .ok (done ++ [env1])
-              | some vp =>
-                match bindOne env1 vp w wid with
-                | .error e => .error e
-                | .ok es => .ok (done ++ es)) (.ok [])
-    match r with
-    | .error e => .error e
-    | .ok envs' => bindObjectK keysOf bindOne xv xid rest envs'
+def bindObjectK (keysOf : Env → ObjKey → KeysRes)
+    (bindOne : Env → Pattern → JV → Ident → PatRes) (xv : JV) (xid : Ident) :
+    List PatKV → PatRes → PatRes
+  | [], cur => cur
+  | .mk key val :: rest, cur =>
+    let next := expandEnvs (fun env' =>
+      let (ks, kstop) := keysOf env' key
+      bindKeysK bindOne xv xid key val env' kstop ks) cur.stop cur.envs
+    bindObjectK keysOf bindOne xv xid rest next
 
 /-- the reduce loop -/
-def reduceStep (bindPat : St → Except Stop (List Env)) (upd : St → Env → JV → Ident → Res)
+def reduceStep (bindPat : St → PatRes) (upd : St → Env → JV → Ident → Res)
     (acc : Except Stop (JV × Ident)) (x : St) : Except Stop (JV × Ident) :=
   match acc with
   | .error e => .error e
   | .ok (sv, sid) =>
-    match bindPat x with
-    | .error e => .error (pendStop x.pend e)
-    | .ok envs =>
-      envs.foldl (fun acc env' =>
-        match acc with
-        | .error e => .error e
-        | .ok (sv, sid) =>
-          let ru := upd x env' sv sid
-          match ru.stop with
-          | .done => (match ru.outs.getLast? with
-            | some l => .ok (l.v, l.id)
-            | none => .ok (sv, sid))
-          | st => .error (pendStop x.pend st)) (.ok (sv, sid))
+    let pr := bindPat x
+    let r : Except Stop (JV × Ident) := pr.envs.foldl (fun (acc : Except Stop (JV × Ident)) env' =>
+      match acc with
+      | .error e => .error e
+      | .ok (sv, sid) =>
+        let ru := upd x env' sv sid
+        match ru.stop with
+        | .done => (match ru.outs.getLast? with
+          | some l => .ok (l.v, l.id)
+          | none => .ok (sv, sid))
+        | st => .error (pendStop x.pend st)) (.ok (sv, sid))
+    match r, pr.stop with
+    | .error e, _ => .error e
+    | .ok st', .done => .ok st'
+    | .ok _, st => .error (pendStop x.pend st)
 
 /-- `.[]` -/
 def iterate (x : St) : Res :=
@@ -859,15 +875,13 @@ def evalAlts : Nat → Cfg → Env → List Pattern → List Pattern → JV → 
     | [] => .empty
     | [p] =>
       let env0 := if allPats.length > 1 then nullVars allPats env else env
-      match bindPattern fuel cfg env0 p xv xid none with
-      | .error st => ⟨[], st⟩
-      | .ok envs => forEnvs envs fun env' => eval fuel cfg env' body s
+      let pr := bindPattern fuel cfg env0 p xv xid none
+      (forEnvs pr.envs fun env' => eval fuel cfg env' body s).append fun _ => ⟨[], pr.stop⟩
     | p :: rest =>
       let env0 := nullVars allPats env
+      let pr := bindPattern fuel cfg env0 p xv xid none
       let attempt : Res :=
-        match bindPattern fuel cfg env0 p xv xid none with
-        | .error st => ⟨[], st⟩
-        | .ok envs => forEnvs envs fun env' => eval fuel cfg env' body s
+        (forEnvs pr.envs fun env' => eval fuel cfg env' body s).append fun _ => ⟨[], pr.stop⟩
       -- `opforkalt` intercepts every error (break and halt included) and runs the next alternative
       match attempt.stop with
       | .err _ => (⟨attempt.outs.map ({ · with pend := true }), .done⟩ : Res).append fun _ =>
@@ -875,30 +889,30 @@ def evalAlts : Nat → Cfg → Env → List Pattern → List Pattern → JV → 
       | _ => ⟨attempt.outs.map ({ · with pend := true }), attempt.stop⟩
 
 /-- destructuring: the environments produced by binding `p` to `x` (generators in object-key
-    queries multiply them); errors of the pattern are errors of the binding -/
-def bindPattern : Nat → Cfg → Env → Pattern → JV → Ident → Option PCtx → Except Stop (List Env)
-  | 0, _, _, _, _, _, _ => .error .fuel
+    queries multiply them), in order, then how the enumeration ended -/
+def bindPattern : Nat → Cfg → Env → Pattern → JV → Ident → Option PCtx → PatRes
+  | 0, _, _, _, _, _, _ => PatRes.fail .fuel
   | fuel + 1, cfg, env, p, xv, xid, ctx =>
     match p with
-    | .var n => .ok [env.push (.var n xv xid)]
+    | .var n => PatRes.ok [env.push (.var n xv xid)]
     | .array ps =>
       match xv with
       | .null | .arr _ =>
-        bindArrayK (fun env' p w wid => bindPattern fuel cfg env' p w wid ctx) xv xid ps 0 [env]
-      | v => .error (.err (errExpectedArray v))
+        bindArrayK (fun env' p w wid => bindPattern fuel cfg env' p w wid ctx) xv xid ps 0 (PatRes.ok [env])
+      | v => PatRes.fail (.err (errExpectedArray v))
     | .object kvs =>
       bindObjectK
         (fun env' key => match key with
-          | .name k => .ok [.str k]
-          | .var n => .ok [.str (B (dropFirst n))]
-          | .str (.lit b) => .ok [.str b]
+          | .name k => ([.str k], .done)
+          | .var n => ([.str (B (dropFirst n))], .done)
+          | .str (.lit b) => ([.str b], .done)
           | .str str =>
             let r := evalStr fuel cfg env' str none { v := xv, id := xid }
-            (match r.stop with | .done => .ok (r.outs.map (·.v)) | st => .error st)
+            (r.outs.map (·.v), r.stop)
           | .query q =>
             let r := eval fuel cfg env' q { v := xv, id := xid }
-            (match r.stop with | .done => .ok (r.outs.map (·.v)) | st => .error st))
-        (fun env' p w wid => bindPattern fuel cfg env' p w wid ctx) xv xid kvs [env]
+            (r.outs.map (·.v), r.stop))
+        (fun env' p w wid => bindPattern fuel cfg env' p w wid ctx) xv xid kvs (PatRes.ok [env])
 
 /-- function call: lexical environment, then jq-defined builtins, then natives -/
 def evalCall : Nat → Cfg → Env → String → List Query → St → Res
